@@ -643,7 +643,7 @@ void det_check_impl(const Json& c, Out& o) {
         const int start = f * frame, len = nf * frame;
         arr_cmplx blk(len);
         for (int i = 0; i < len; ++i) blk[i] = s.x[start + i];
-        auto res = det.process(blk);
+        auto res = (f & 1) ? det(blk) : det.process(blk);   // both call forms
         const bool here = s.p >= start && s.p < start + len;
         if (!res.has_value()) {
             if (here) {
